@@ -11,6 +11,7 @@ package main
 
 import (
 	"bytes"
+	"crypto/ed25519"
 	"encoding/hex"
 	"encoding/json"
 	"fmt"
@@ -182,7 +183,7 @@ var protectedOps = []string{"GET /accessories", "GET /characteristics", "PUT val
 	"other-method DELETE /pairings", "other-method PATCH /pairings", "other-method OPTIONS /pairings", "other-method FOO /pairings", "other-method DELETE /pairings-remove", "other-method PATCH /pairings-remove",
 	"other-method DELETE /characteristics", "other-method PATCH /characteristics", "other-method OPTIONS /accessories", "other-method PATCH /accessories", "other-method DELETE /resource", "other-method FOO /characteristics"}
 var handshakeOps = []string{"setup M1", "setup M3 wrong-proof", "setup M3 A=0", "setup M5 zero-key", "verify M1", "verify M1 short-key", "verify M3 unknown-name", "verify M3 accessory-name",
-	"verify M3 L-bad-signature", "verify M3 zero-key", "verify M3 short", "verify M3 name-is-a-path", "identify", "L read", "L write", "L subscribe", "switch-connection", "encrypted GET /accessories", "encrypted PUT value", "encrypted-zero GET /accessories", "encrypted-zero PUT value",
+	"verify M3 L-bad-signature", "verify M3 zero-key", "verify M3 short", "verify M3 name-is-a-path", "verify M3 unknown-name+small-order-signature", "identify", "L read", "L write", "L subscribe", "switch-connection", "encrypted GET /accessories", "encrypted PUT value", "encrypted-zero GET /accessories", "encrypted-zero PUT value",
 	// complete, consistent SRP runs with passwords anybody can know (what the accessory advertises, the fixed SRP user, nothing),
 	// and the key exchange sealed under the key of that run
 	"setup M3 guess:accessory-id", "setup M3 guess:accessory-name", "setup M3 guess:empty", "setup M3 guess:srp-user", "setup M5 guess-key"}
@@ -316,7 +317,7 @@ func main() {
 	// persistence: many failed attempts on one connection (counters, lock-outs), then protected requests in plaintext and
 	// under the keys of the last failed exchange
 	for _, k := range []int{100, r.Pick(3, 256)} {
-		for _, pair := range [][2]string{{"verify M1", "verify M3 L-bad-signature"}, {"verify M1", "verify M3 unknown-name"}, {"verify M1", "verify M3 name-is-a-path"}, {"setup M1", "setup M3 wrong-proof"}, {"setup M1", "setup M3 A=0"}} {
+		for _, pair := range [][2]string{{"verify M1", "verify M3 L-bad-signature"}, {"verify M1", "verify M3 unknown-name"}, {"verify M1", "verify M3 name-is-a-path"}, {"verify M1", "verify M3 unknown-name+small-order-signature"}, {"setup M1", "setup M3 wrong-proof"}, {"setup M1", "setup M3 A=0"}} {
 			var h []step
 			for i := 0; i < k; i++ {
 				h = append(h, step{Op: pair[0]}, step{Op: pair[1]})
@@ -698,6 +699,29 @@ func handshakeMessage(w *world, at *attacker, op string, rnd *rand.Rand) ([]byte
 		return refctl.VerifyM3(key, refctl.VerifyM3Plain(w.L.ID, at.me.LTSK, pub, accPub)), "/pair-verify"
 	case "verify M3 zero-key":
 		return refctl.VerifyM3([32]byte{}, refctl.VerifyM3Plain(w.accID, at.me.LTSK, pub, accPub)), "/pair-verify"
+	case "verify M3 unknown-name+small-order-signature":
+		// a name nobody stored and a signature nobody needs a key for: R||S with S = 0 and R a point of small order verifies
+		// under the all-zero "public key" for most messages; the peer varies the name until it does (all offline)
+		var zero [32]byte
+		small := [][]byte{{1}, {}, {0xec, 0xff, 0xff, 0xff, 0xff, 0xff, 0xff, 0xff, 0xff, 0xff, 0xff, 0xff, 0xff, 0xff, 0xff, 0xff, 0xff, 0xff, 0xff, 0xff, 0xff, 0xff, 0xff, 0xff, 0xff, 0xff, 0xff, 0xff, 0xff, 0xff, 0xff, 0x7f}, {31: 0x80}}
+		name, sig := "nobody-knows-me", make([]byte, 64)
+	search:
+		for i := 0; i < 64; i++ {
+			n := fmt.Sprintf("nobody-%d-%d", rnd.Intn(1000000), i)
+			info := append(append(append([]byte{}, pub...), []byte(n)...), accPub...)
+			for _, R := range small {
+				cand := make([]byte, 64)
+				copy(cand, R)
+				if ed25519.Verify(ed25519.PublicKey(zero[:]), info, cand) {
+					name, sig = n, cand
+					run.Count("forged_signatures_that_verify_under_the_all_zero_key", 1)
+					break search
+				}
+			}
+		}
+		e := &refctl.Enc{}
+		sub := e.Bytes(refctl.TagIdentifier, []byte(name)).Bytes(refctl.TagSignature, sig).B
+		return refctl.VerifyM3(key, sub), "/pair-verify"
 	case "verify M3 name-is-a-path":
 		// the peer IS paired - with another accessory on the same host, whose storage folder lies next to this one's.  It
 		// names itself by a path that leads from this accessory's folder to its record over there and signs with its own key
